@@ -422,8 +422,9 @@ inductive Particle where
   /-- an element particle; `subst` = names of the members of its substitution group
   (`XsdElement.is_matching` accepts them) -/
   | elem (d : ElemDecl) (subst : List String)
-  /-- an element wildcard; `ns = none` is `##any`, `some l` the allowed namespace names -/
-  | any (ns : Option (List String))
+  /-- an element wildcard; `ns = none` is `##any`, `some l` the allowed namespace names;
+  `skip` = `processContents="skip"` -/
+  | any (ns : Option (List String)) (skip : Bool)
   deriving Repr, Inhabited
 
 inductive Content where
@@ -474,21 +475,46 @@ def nsOf (name : String) : String :=
 def Particle.matches (p : Particle) (name : String) : Bool :=
   match p with
   | .elem d subst => d.name == name || subst.contains name
-  | .any none => true
-  | .any (some l) => l.contains (nsOf name)
+  | .any none _ => true
+  | .any (some l) _ => l.contains (nsOf name)
 
 /-- the declaration selected once a particle matched (xpath_nodes.py:1253-1257): the particle's own
 declaration when the names are equal, else ("a wildcard or a substitute") the global one -/
 def Particle.resolve (s : Schema) (p : Particle) (name : String) : Option ElemDecl :=
   match p with
   | .elem d _ => if d.name == name then some d else s.getElement name
-  | .any _ => s.getElement name
+  | .any _ skip => if skip then none else s.getElement name      -- fix F20m: not assessed
 
-/-- the `for xsd_element in content.iter_elements()` loop with its `for … else`:
-`none` = no particle matches (nothing is cached), `some r` = first matching particle resolved -/
-def findParticle (s : Schema) (name : String) : List Particle → Option (Option ElemDecl)
-  | [] => none
-  | p :: ps => if p.matches name then some (p.resolve s name) else findParticle s name ps
+/-- the particle is an element declaration with exactly this name (`particle.name == node.name`) -/
+def Particle.declares (p : Particle) (name : String) : Bool :=
+  match p with
+  | .elem d _ => d.name == name
+  | .any _ _ => false
+
+def Particle.isWild : Particle → Bool
+  | .any _ _ => true
+  | .elem _ _ => false
+
+/-- may `p` replace the fallback `fb`?  (`xsd_element is None or xsd_element.name is None and
+particle.name is not None`: nothing found yet, or a wildcard found and `p` is an element particle) -/
+def betterThan (p : Particle) (fb : Option Particle) : Bool :=
+  match fb with
+  | none => true
+  | some q => q.isWild && !p.isWild
+
+/-- the `for particle in content.iter_elements()` loop (with fix F20k): a declaration with the
+element's own name wins and ends the loop; otherwise the first ELEMENT particle that matches (the
+head of a substitution group) is the answer, and only if there is none the first matching
+wildcard.  `fb` is the fallback found so far. -/
+def scanParticles (name : String) : List Particle → Option Particle → Option Particle
+  | [], fb => fb
+  | p :: ps, fb =>
+    if p.declares name then some p
+    else scanParticles name ps (if p.matches name && betterThan p fb then some p else fb)
+
+/-- `none` = no particle matches (nothing is cached), `some r` = the selected particle resolved -/
+def findParticle (s : Schema) (name : String) (ps : List Particle) : Option (Option ElemDecl) :=
+  (scanParticles name ps none).map fun p => p.resolve s name
 
 /-- `xsd_types[-1].model_group`: the particles of a complex type with element-only, mixed or empty
 content (an empty group); `None` for simple types and simple content -/
@@ -646,15 +672,19 @@ inductive TV where
   | viaSchema
   deriving Repr, DecidableEq, Inhabited
 
+/-- `for item in text.split(): yield decode(item)` for one prototype; the state is (atoms yielded so
+far, no exception yet) -/
+def tryItems (b : B) (items : List String) (st : List Atom × Bool) : List Atom × Bool :=
+  items.foldl (fun (st : List Atom × Bool) item =>
+    if st.2 then (match pyDecode b item with
+                  | some a => (st.1 ++ [a], true)
+                  | none => (st.1, false))
+    else st) st
+
 /-- one prototype: the `try` body of `get_atomic_sequence`.  Returns the atoms yielded (appended
 to what was yielded before) and whether the body completed without exception. -/
 def tryProto (isList : Bool) (text : String) (b : B) (acc : List Atom) : List Atom × Bool :=
-  if isList then
-    (splitWs text).foldl (fun (st : List Atom × Bool) item =>
-      if st.2 then (match pyDecode b item with
-                    | some a => (st.1 ++ [a], true)
-                    | none => (st.1, false))
-      else st) (acc, true)
+  if isList then tryItems b (splitWs text) (acc, true)
   else
     match pyDecode b text with
     | some a => (acc ++ [a], true)
@@ -842,6 +872,44 @@ def runHistory (s : Schema) : Proxy → List (Bool × Forest Unit) → List (For
   | p, (valid, t) :: rest =>
     let (a, p') := evalStep s p valid t
     a :: runHistory s p' rest
+
+/-! ## the node tree's own state: `tree.schema` and repeated application
+
+A node tree remembers the proxy that typed it (`XPathNodeTree.schema`).  `apply_schema` returns early
+when the same proxy is applied again to a root that is still typed (xpath_nodes.py:1201-1204, with
+fix F20l: `and self.xsd_type is not None`); the `XPathContext.schema` setter first clears the
+types and then applies the schema (xpath_context.py:221-242). -/
+
+structure TreeState where
+  /-- identity of the proxy in `tree.schema` -/
+  schema : Option Nat
+  ann : Forest Ann
+  deriving Repr, Inhabited
+
+/-- a freshly built node tree -/
+def TreeState.init (t : Forest Unit) : TreeState := ⟨none, clearF t⟩
+
+/-- `self.xsd_type is not None` of the root element -/
+def rootTyped : Forest Ann → Bool
+  | .elem a _ _ _ _ _ => a.xsdType.isSome
+  | _ => false
+
+/-- `root.clear_types()`: the annotations go, `tree.schema` stays -/
+def clearTypes (st : TreeState) : TreeState := ⟨st.schema, clearF st.ann.erase⟩
+
+/-- `root.apply_schema(proxy)`; `pid` = identity of the proxy, `fv` = `proxy.is_fully_valid()` now -/
+def applySchemaOp (pid : Nat) (fv : Bool) (s : Schema) (st : TreeState) : TreeState :=
+  if st.schema == some pid && rootTyped st.ann then st
+  else ⟨some pid, applySchemaV fv s st.ann.erase⟩
+
+/-- the `XPathContext.schema` setter (a new context over an existing node tree) -/
+def setSchema (pid : Nat) (fv : Bool) (s : Schema) (st : TreeState) : TreeState :=
+  applySchemaOp pid fv s (clearTypes st)
+
+/-- the pinned tree's early return, without the `xsd_type is not None` test (kept to state what the
+fix repairs) -/
+def applySchemaOpPinned (pid : Nat) (fv : Bool) (s : Schema) (st : TreeState) : TreeState :=
+  if st.schema == some pid then st else ⟨some pid, applySchemaV fv s st.ann.erase⟩
 
 /-! ## node selection (a path evaluator over the same trees)
 
